@@ -79,7 +79,7 @@ def cases(draw):
             relax[mid] = list(draw(st.sampled_from(RELAX)))
     return {
         "spec": spec,
-        "path": draw(st.sampled_from(build.BUILD_PATHS)),
+        "path": draw(st.sampled_from(build.BUILD_PATHS_LP)),
         "relax": relax,
         "solution": draw(st.sampled_from(["optimize", "pfba", "vertex", "vertex", "none"])),
         "vertex_obj": draw(st.lists(st.integers(-2, 2), min_size=n, max_size=n)),
